@@ -17,8 +17,14 @@ func conversionCollectionToList(ety cty.Type, conv conversion) conversion {
 			// If the input collection has an unknown length (which is true
 			// for a set containing unknown values) then our result must be
 			// an unknown list, because we can't predict how many elements
-			// the resulting list should have.
-			return cty.UnknownVal(cty.List(val.Type().ElementType())), nil
+			// the resulting list should have. Its element type is the
+			// requested one, unless that is the dynamic placeholder, in
+			// which case the elements keep their type.
+			resultEty := ety.WithoutOptionalAttributesDeep()
+			if resultEty == cty.DynamicPseudoType {
+				resultEty = val.Type().ElementType()
+			}
+			return cty.UnknownVal(cty.List(resultEty)), nil
 		}
 
 		elems := make([]cty.Value, 0, val.LengthInt())
